@@ -619,14 +619,33 @@ def site_field_pattern(rng, L):
     return kind, [float(x) for x in h]
 
 
-def charged_operator(rng, qd, c, cplx=True):
-    """Random local operator X with X[s, t] != 0 only where qd[s] - qd[t] == c (None if no such entry exists)."""
+def isotropic(rng, R):
+    """R + i S with S real, Frobenius-orthogonal to the real matrix R, of the same norm and the same zero pattern: the entries SQUARED sum to zero
+    (sum O_ij^2 = |R|^2 - |S|^2 + 2i <R,S> = 0) although the matrix is not zero -- like S^x + i S^z or diag(1, i); a 'norm' computed without the complex
+    conjugate takes it for the zero block. Returns R itself if its pattern has fewer than two entries."""
+    R = np.asarray(R, dtype=float)
+    mask = R != 0
+    if mask.sum() < 2:
+        return R.astype(complex)
+    P = np.where(mask, rng.normal(size=R.shape), 0)
+    S = P - (np.sum(P * R) / np.sum(R * R)) * R
+    nS = np.linalg.norm(S)
+    if nS == 0:
+        return R.astype(complex)
+    return R + 1j * S * (np.linalg.norm(R) / nS)
+
+
+def charged_operator(rng, qd, c, cplx=True, iso=False):
+    """Random local operator X with X[s, t] != 0 only where qd[s] - qd[t] == c (None if no such entry exists). iso: an isotropic complex operator
+    (entries squared sum to ~0, see `isotropic`)."""
     qd = np.asarray(qd)
     mask = np.subtract.outer(qd, qd) == c
     if not mask.any():
         return None
     d = len(qd)
     X = rng.normal(size=(d, d)) + (1j * rng.normal(size=(d, d)) if cplx else 0)
+    if iso and cplx:
+        return isotropic(rng, np.where(mask, X.real, 0))
     return np.where(mask, X, 0)
 
 
@@ -642,9 +661,10 @@ def nn_pattern_hamiltonian(rng, qd, L, pattern=None, cplx=True, npairs=None):
     diffs = np.unique(np.subtract.outer(qd, qd))
     K = int(rng.integers(1, 3)) if npairs is None else npairs
     Xs = []
+    iso_draw = float(rng.random())              # three in ten complex models use isotropic end-point operators (entries squared sum to zero)
     for _ in range(K):
         c = int(rng.choice(diffs))
-        X = charged_operator(rng, qd, c, cplx)
+        X = charged_operator(rng, qd, c, cplx, iso=bool(cplx and iso_draw < 0.3))
         Xs.append((c, X))
     N = np.diag(rng.normal(size=d))
     if pattern is None:
@@ -955,7 +975,7 @@ def structured_operator_tensor(rng, d, Dl, Dr, cplx=True):
     for a in range(Dl):
         for b in range(Dr):
             k = str(rng.choice(['zero', 'zero', 'zero', 'identity', 'scaled-identity', 'identity+offdiag', 'identity+offdiag', 'diagonal', 'const-diag+dense', 'projector',
-                                'rank-one', 'shift', 'hermitian', 'dense']))
+                                'rank-one', 'shift', 'hermitian', 'dense', 'isotropic']))
             if k == 'zero':
                 continue
             if k == 'identity':
@@ -981,6 +1001,8 @@ def structured_operator_tensor(rng, d, Dl, Dr, cplx=True):
             elif k == 'hermitian':
                 B = c(d, d)
                 B = B + B.conj().T
+            elif k == 'isotropic':
+                B = isotropic(rng, rng.normal(size=(d, d))) if cplx else np.diag(np.ones(d))
             else:
                 B = c(d, d)
             W[:, :, a, b] = B
